@@ -7,7 +7,8 @@
 //   key <id> <hash>
 //   pre <op...>                      sequential set-up operations (not scheduled, not traced)
 //   thread <tid> <op> ; <op> ; ...   the program of thread <tid> (0-based, consecutive)
-//   sched <tid> <tid> ...            choice at successive scheduling points (then round-robin)
+//   sched <tid> <tid> ...            choice at successive scheduling points (then round-robin);
+//                                    -(t+1) = thread t runs until it finishes or blocks
 //   seed <n>                         or: seeded random scheduling
 // Thread ops: find k | contains k | insert k v | ioa k v | update k v | upsert k fn two v |
 //   uprase k fn two v | erase k | updatefn k fn | erasefn k fn | rehash n | reserve n | clear |
@@ -145,6 +146,12 @@ static int choose_next(int me) {
     if (me_ok && (g_rng() % 100) < 70) return me;
     return cand[g_rng() % cand.size()];
   }
+  // a negative entry -(t+1) means: thread t runs until it has finished (or blocks); the entry is consumed then
+  while (g_sched_pos < g_sched.size() && g_sched[g_sched_pos] < 0) {
+    int t = -g_sched[g_sched_pos] - 1;
+    if (t < n && runnable(t)) return t;
+    ++g_sched_pos;
+  }
   if (g_sched_pos < g_sched.size()) {
     int want = g_sched[g_sched_pos++];
     for (int t : cand) if (t == want) return t;
@@ -180,6 +187,19 @@ extern "C" void libcuckoo_verif_hook(int kind, const void *obj, unsigned long a,
   struct Guard { Guard() { tls_in_hook = true; } ~Guard() { tls_in_hook = false; } } guard;
   int me = tls_tid;
   std::unique_lock<std::mutex> lk(g_mu);
+  if (kind == LIBCUCKOO_VH_BUCKET) {
+    // data access (not a scheduling point): bucket i of the current (0) or superseded (1) array; b = 1 for setKV/eraseKV
+    int which = (obj == (const void *)&IA::buckets(*g_tab)) ? 0 : (obj == (const void *)&IA::old_buckets(*g_tab)) ? 1 : -1;
+    if (which >= 0) g_out += "AC " + std::to_string(me) + " " + std::to_string(which) + " " + std::to_string(a) + " " + std::to_string(b) + "\n";
+    return;
+  }
+  if (kind == LIBCUCKOO_VH_FS_NREM) {
+    if (obj == (const void *)g_tab) {
+      g_out += "AC " + std::to_string(me) + " DEC\n";
+      if (IA::nrem(*g_tab) == 1) g_out += "AC " + std::to_string(me) + " FREEOLD\n"; // this decrement releases the superseded array
+    }
+    return;
+  }
   if (++g_events > kMaxEvents) { g_out += "LIVELOCK\n"; fwrite(g_out.data(), 1, g_out.size(), stdout); fflush(stdout); _exit(4); }
   bool is_main_tab = (obj == (const void *)g_tab);
   bool is_main_buckets = (obj == (const void *)&IA::buckets(*g_tab));
